@@ -90,9 +90,25 @@ inductive Ev where
   | dump (bytes : List Byte)
   /-- `receive_snoop (text, snooper)`: the whole text of a write is handed to the user `snooper` who snoops this one -/
   | snoop (snooper : Nat) (data : List Byte)
+  /-- an LPC error (raised by a snooper's receive_snoop) reached the caller of add_message -/
+  | lpcerr
   /-- out-of-bounds access / endless loop in the C code -/
   | fault (what : String)
   deriving Repr, DecidableEq
+
+/-- one scripted reaction of the harness user object's `receive_snoop` (harness/mudlib/c14/user.c): what the snooper's
+LPC code does with the text it is handed - this is how add_message is re-entered from inside add_message -/
+inductive React where
+  /-- `receive (text[0..1999])`: echo to the snooper itself -/
+  | echo
+  /-- `tell_object (user j, "[me>j]\n")` if user `j` is still interactive -/
+  | tell (j : Nat)
+  /-- `destruct (user j)` if user `j` is still interactive (`j` may be the snooper itself or the user being written to) -/
+  | dest (j : Nat)
+  /-- `error ()` -/
+  | err
+  | nop
+  deriving Repr, DecidableEq, Inhabited
 
 structure St where
   /-- `message_buf[MESSAGE_BUF_SIZE]` -/
@@ -117,6 +133,8 @@ structure St where
   snoopBy : Option Nat := none
   /-- remaining scripted send results -/
   script : List SendRes := []
+  /-- remaining scripted reactions of this user's `receive_snoop` (read only by the several-user world, Multi.lean) -/
+  react : List React := []
   /-- ghost: all bytes accepted by send so far, newest first -/
   sentR : List Byte := []
   /-- ghost: all bytes ever stored into the ring, newest first -/
@@ -247,7 +265,9 @@ def snoopEvs (s : St) (data : List Byte) : List Ev :=
   | none => []
   | some k => [.snoop k data]
 
-/-- `add_message (who, data)` (`v = false`) / `add_vmessage (who, "%s", data)` (`v = true`) -/
+/-- `add_message (who, data)` (`v = false`) / `add_vmessage (who, "%s", data)` (`v = true`).  The `wend` event is the
+hook point just before the snoop forwarding (or an early `return`); the forwarding is the LAST thing both functions do
+with the user (`fix:` commit: add_message used `ip` after `receive_snoop`, whose LPC code can free it or raise an error) -/
 def addMessage (v : Bool) (data : List Byte) (s : St) : St × List Ev :=
   if s.gone then (s, [.wbeg v data, .wend])
   else
@@ -256,18 +276,18 @@ def addMessage (v : Bool) (data : List Byte) (s : St) : St × List Ev :=
       -- `if ((ip->message_length != 0) && !flush_message (ip)) debug_message (...)`
       let f := if r.1.len ≠ 0 then flushMsg r.1 else (r.1, [], true)
       -- add_vmessage snoops after its trailing flush, also after a `break` on a broken connection
-      (f.1, .wbeg v data :: (r.2.1 ++ f.2.1 ++ snoopEvs s data ++ [.wend]))
+      (f.1, .wbeg v data :: (r.2.1 ++ f.2.1 ++ [.wend] ++ snoopEvs s data))
     else if s.console then
       -- `if (ip == all_users[0]) flush_message (ip);` (not reached after the `return` of a broken connection)
       let f := if r.2.2 = .ret then (r.1, [], true) else flushMsg r.1
       let sn := if r.2.2 = .ret then [] else snoopEvs s data
-      (f.1, .wbeg v data :: (r.2.1 ++ sn ++ f.2.1 ++ [.wend]))
+      (f.1, .wbeg v data :: (r.2.1 ++ f.2.1 ++ [.wend] ++ sn))
     else
       -- a broken connection `return`s before `async_runtime_modify (.., EVENT_READ | EVENT_WRITE, ..)`
       let s2 := if r.2.2 = .ret then r.1 else { r.1 with want := true }
       -- the `return` of a broken connection also skips the snoop forwarding
       let sn := if r.2.2 = .ret then [] else snoopEvs s data
-      (s2, .wbeg v data :: (r.2.1 ++ sn ++ [.wend]))
+      (s2, .wbeg v data :: (r.2.1 ++ [.wend] ++ sn))
 
 inductive Op where
   | sendres (rs : List SendRes)
@@ -280,6 +300,16 @@ inductive Op where
   | dump
   /-- `new_set_snoop`: user `k` starts (`some k`) / nobody any longer (`none`) snoops this user -/
   | snoopBy (k : Option Nat)
+  /-- an add_message / add_vmessage call made by LPC code (no state line is printed after it) -/
+  | writeQ (v : Bool) (data : List Byte)
+  /-- `remove_interactive` reached from LPC code (`destruct`): flush, CLOSING, descriptor closed; no state line -/
+  | closeQ
+  /-- the state line alone -/
+  | showSt
+  /-- more scripted reactions for this user's `receive_snoop` -/
+  | react (rs : List React)
+  /-- `react = react[1..]`: the user's `receive_snoop` took its next scripted reaction -/
+  | popReact
   deriving Repr
 
 def stEv (s : St) : Ev :=
@@ -310,6 +340,15 @@ def step (s : St) : Op → St × List Ev
     else ({ s with dead := true, closed := true }, [.close, .stClosed])
   | .dump => (s, [.dump (if s.closed then [] else contents s)])
   | .snoopBy k => ({ s with snoopBy := k }, [])
+  | .writeQ v d => addMessage v d s
+  | .closeQ =>
+    if s.closed then (s, [])
+    else
+      let r := flushMsg s
+      ({ r.1 with closed := true }, r.2.1 ++ [.close])
+  | .showSt => (s, [stEv s])
+  | .react rs => ({ s with react := s.react ++ rs }, [])
+  | .popReact => ({ s with react := s.react.tail }, [])
 
 def runFrom : St → List Op → St × List Ev
   | s, [] => (s, [])
